@@ -106,3 +106,6 @@ def run(rep):
     include(rep, 'c09', ('C09.derives', 'C09.host-shareable-atom', 'C09.panic-rows'), 'shader-type-derive')
     # "nested structs of those": every struct reachable from a host-shareable variable must be emitted (C08's selection formula and closure rules)
     include(rep, 'c08', ('C08.filter-formula', 'C08.closure', 'C08.struct-only'), 'nested-structs-emitted')
+    # the section reaches the assembled output unconditionally (shared rule, lib/sections.py)
+    from sections import check_wiring
+    check_wiring(rep, 'C10.section-wiring', ['derive ( #('], 'struct-section')
